@@ -20,14 +20,16 @@ def V(x):
     """encode a Python value"""
     if x is None:
         return None
-    if isinstance(x, (bool, np.bool_)):
+    if isinstance(x, np.bool_):
+        return {"k": "npbool", "v": bool(x)}
+    if isinstance(x, bool):
         return {"k": "bool", "v": bool(x)}
     if isinstance(x, int):
         return {"k": "int", "v": int(x)}
     if isinstance(x, np.integer):
         return {"k": "npint", "v": int(x)}
     if isinstance(x, np.floating):
-        return {"k": "npfloat", "v": _fs(float(x))}
+        return {"k": "npfloat", "v": _fs(float(np.float64(x)))}
     if isinstance(x, float):
         return {"k": "float", "v": _fs(x)}
     raise TypeError(x)
@@ -54,6 +56,8 @@ def PY(v):
     k = v["k"]
     if k == "bool":
         return bool(v["v"])
+    if k == "npbool":
+        return np.bool_(v["v"])
     if k == "int":
         return int(v["v"])
     if k == "npint":
@@ -97,6 +101,8 @@ def c_num(v):
         return "(NInt (%d))" % v["v"]
     if k == "npint":
         return "(NNpInt (%d))" % v["v"]
+    if k == "npbool":
+        return "(NNpInt (%d))" % (1 if v["v"] else 0)     # numpy.bool_: numeric, not an instance of int
     return "(NFloat %s)" % c_xnum(_ff(v["v"]))
 
 
@@ -226,9 +232,22 @@ def build_kwargs(case, ts):
     return kw
 
 
+_PRIORS = {}
+
+
 def priors_for(ts):
     """a prior grid for the nodes of ts (built on the same topology with every sample at time 0,
-    so that one exists for tree sequences with historical samples too)"""
+    so that one exists for tree sequences with historical samples too).  One object per tree
+    sequence, reused by every call on it."""
+    key = id(ts)
+    if key in _PRIORS and _PRIORS[key][0] is ts:
+        return _PRIORS[key][1]
+    g = _priors_for(ts)
+    _PRIORS[key] = (ts, g)
+    return g
+
+
+def _priors_for(ts):
     import tsdate
     tables = ts.dump_tables()
     t = tables.nodes.time.copy()
@@ -477,24 +496,27 @@ INF = float("inf")
 
 POOL = {
     "mutation_rate": [None, 0, 0.0, -0.0, -1, -1e-9, NAN, -INF, True, False, 1e-3, 0.05, 0.5, 1,
-                      np.float64(0.02), np.float64(0.0), np.int64(1), np.int64(0), 5e-3],
+                      np.float64(0.02), np.float64(0.0), np.int64(1), np.int64(0), 5e-3, np.True_, np.False_,
+                      np.float32(0.5)],
     "min_branch_length": [None, 0, 0.0, -0.0, -1, -1e-9, 1e-9, 1e-8, 1e-6, NAN, -INF, True, False, 1, 0.5,
-                          np.float64(0.0), np.float64(1e-6), np.int64(0), np.int64(1), 1e-3],
+                          np.float64(0.0), np.float64(1e-6), np.int64(0), np.int64(1), 1e-3, INF, np.True_, np.False_],
     "constr_iterations": [None, -1, 0, 1, 3, 100, 1.0, 2.5, NAN, INF, True, False, np.int64(3), np.int64(-1),
-                          -5, 0.0, 7],
-    "max_iterations": [None, 0, -1, 1, 2, 3, 0.5, NAN, True, False, -0.5, np.int64(2), np.int64(0), -INF, 0.0],
+                          -5, 0.0, 7, np.True_, np.int64(0)],
+    "max_iterations": [None, 0, -1, 1, 2, 3, 0.5, NAN, True, False, -0.5, np.int64(2), np.int64(0), -INF, 0.0,
+                       np.True_, np.False_],
     "eps": [None, 0, 1e-8, 1e-6, 1e-3, True, np.float64(1e-8)],
     "recombination_rate": [None, 0, 1e-8, NAN, 1.0, False],
     "Ne": [None, 1, 0, 2.5, -1, np.float64(1.5)],
-    "allow_unary": [None, True, False, 0, 1],
-    "return_fit": [None, True, False, 0, 1, 2.0, 0.0],
-    "return_likelihood": [None, True, False, 0, 1, 0.0, NAN],
+    "allow_unary": [None, True, False, 0, 1, np.True_, np.False_],
+    "return_fit": [None, True, False, 0, 1, 2.0, 0.0, np.True_, np.False_, np.int64(0)],
+    "return_likelihood": [None, True, False, 0, 1, 0.0, NAN, np.True_, np.False_],
     "max_shape": [None, 10, 1000, 50.5],
     "num_threads": [None, 1, 0],
     "probability_space": [None, "linear", "logarithmic", "foo", "LINEAR", ""],
     "return_posteriors": [None, True, False],
 }
 POP_POOL = [None, 1, 0.5, 100, 1e4, 0, -1, -0.0, NAN, INF, -INF, True, False, np.float64(2.0), np.float64(0.0),
+            np.int64(3), np.int64(0), np.True_, ("ndarray", [1.0]),
             ("dict", [1.0, 2.0], [1.0], True), ("dict", [1.0, 0.0], [1.0], False), ("dict", [-1.0], [], False),
             ("obj", [1.0, 3.0], [0.5])]
 
@@ -516,6 +538,7 @@ VAR_EXTRA = {"rescaling_intervals": [0, 1, 5, 1000], "rescaling_iterations": [0,
              "match_segregating_sites": [True, False], "regularise_roots": [True, False],
              "singletons_phased": [True]}
 IO_EXTRA = {"outside_standardize": [True, False], "ignore_oldest_root": [True, False]}
+DISCRETE_EXTRA = {"cache_inside": [True, False]}      # undocumented, named by both discrete wrappers
 
 
 def enc_pop(x):
@@ -569,6 +592,8 @@ def valid_params(rng, method):
             for k, vs in IO_EXTRA.items():
                 if rng.random() < 0.3:
                     p[k] = V(rng.choice(vs))
+        if rng.random() < 0.2:
+            p["cache_inside"] = rng.choice([True, False])
     if rng.random() < 0.3:
         p["time_units"] = rng.choice(["generations", "years"])
     if rng.random() < 0.3:
@@ -587,9 +612,9 @@ def accepted_by(method):
     if m == "variational_gamma":
         return common | {"max_iterations", "max_shape", "eps"} | set(VAR_EXTRA)
     if m == "inside_outside":
-        return common | {"eps", "num_threads", "probability_space", "Ne"} | set(IO_EXTRA)
+        return common | {"eps", "num_threads", "probability_space", "Ne", "cache_inside"} | set(IO_EXTRA)
     if m == "maximization":
-        return common | {"eps", "num_threads", "probability_space", "Ne"}
+        return common | {"eps", "num_threads", "probability_space", "Ne", "cache_inside"}
     return common
 
 
@@ -674,7 +699,7 @@ def show_case(case):
     p = case["params"]
     d = {}
     for k, v in p.items():
-        if isinstance(v, dict) and "k" in v and v["k"] in ("bool", "int", "npint", "float", "npfloat"):
+        if isinstance(v, dict) and "k" in v and v["k"] in ("bool", "npbool", "int", "npint", "float", "npfloat"):
             d[k] = show(v)
         else:
             d[k] = v
@@ -821,12 +846,30 @@ def patho_ts(rng):
     raise AssertionError(kind)
 
 
+def decorate(rng, ts, keep_mutation_free=False, p=0.3):
+    """gen.exotic on ~40% of the inputs: extra flag bits, renumbered nodes, mutations above roots,
+    mutation-free sites, unknown mutation times, arbitrary allele states, populations"""
+    if rng.random() >= 0.4:
+        return ts, []
+    kinds = [k for k in gen.EXOTIC_KINDS if not (keep_mutation_free and k == "root_mutations")]
+    if ts.sequence_length > 1e5:
+        # these two enumerate every integer position of the genome
+        kinds = [k for k in kinds if k not in ("root_mutations", "monomorphic_sites")]
+    try:
+        return gen.exotic(rng, ts, kinds=kinds, p=p)
+    except Exception:     # noqa: BLE001 - a decoration that does not apply to this input
+        return ts, []
+
+
 def patho_case(rng):
     """(case, ts): a valid call on a pathological valid tree sequence"""
     for _ in range(50):
         ts, label = patho_ts(rng)
         if ts.num_mutations <= 400 and ts.num_trees <= 60 and ts.num_samples >= 2:
             break
+    ts, ex = decorate(rng, ts, keep_mutation_free=(ts.num_mutations == 0))
+    if ex:
+        label = label + "+" + "+".join(k[:4] for k in ex)
     method = rng.choice(["variational_gamma", "variational_gamma", "variational_gamma", None,
                          "inside_outside", "maximization"])
     m = method or "variational_gamma"
@@ -877,6 +920,10 @@ def patho_case(rng):
             p["ignore_oldest_root"] = V(True)
         if m == "inside_outside" and rng.random() < 0.3:
             p["outside_standardize"] = V(False)
+        if rng.random() < 0.25:
+            p["cache_inside"] = True
+        if rng.random() < 0.15:
+            p["num_threads"] = V(1)
     # rarely: extreme but valid-by-the-letter values (known findings K3, K3b, K4, K35b, K35d)
     if rng.random() < 0.06:
         which = rng.choice(["rate", "max_shape", "mbl", "nptypes"])
